@@ -6,8 +6,12 @@ REPO=${VERIF_REPO:-/repo}
 B=${VERIF_BUILD:-/verif/build}
 R=$B/schedrt
 mkdir -p $R $B/sched
-rsync -a --delete --exclude z_chan.go --exclude sema_llgo.go /verif/sched/rt/ $R/
+rsync -a --delete --exclude z_chan.go --exclude sema_llgo.go --exclude /fetchx/fetch.go /verif/sched/rt/ $R/
 grep -v '^//go:linkname' $REPO/runtime/internal/runtime/z_chan.go > $R/internal/runtime/z_chan.go
 grep -v '^//go:linkname' $REPO/runtime/internal/lib/runtime/sema_llgo.go > $R/internal/lib/runtime/sema_llgo.go
+# internal/crosscompile/fetch.go, byte-identical except for four import paths (os, syscall, net/http, time -> scheduler-aware stand-ins)
+sed -e 's|^\t"os"$|\tos "github.com/goplus/llgo/runtime/vos"|' -e 's|^\t"syscall"$|\tsyscall "github.com/goplus/llgo/runtime/vsyscall"|' \
+    -e 's|^\t"net/http"$|\thttp "github.com/goplus/llgo/runtime/vhttp"|' -e 's|^\t"time"$|\ttime "github.com/goplus/llgo/runtime/vtime"|' \
+    -e 's|^package crosscompile|package fetchx|' $REPO/internal/crosscompile/fetch.go > $R/fetchx/fetch.go
 . /verif/tc/env.sh
-cd $R && go build -o $B/sched/explore ./cmd/explore
+cd $R && go build -o $B/sched/explore ./cmd/explore && go build -o $B/sched/fetchexplore ./cmd/fetchexplore
